@@ -1,0 +1,64 @@
+//go:build verif
+
+// Contracts of package expr for the gocv verifier (property C27).
+// Comment-only: no Go code is compiled from this file. A contract on a
+// generic function is checked for every instantiation in the program
+// (instantiate_verif.go provides all predeclared integer types).
+
+package expr
+
+//@ func NewConst
+//@   enum w in WIDTHS0, n in BYTELENS
+//@   input:b bytes(n)
+//@   ensures len(result.bs) == w
+//@   ensures forall i int :: 0 <= i && i < w ==> result.bs[i] == ite(i < n, b[i], 0)
+//@   ensures[fresh] fresh(result.bs)
+
+//@ func NewConstUint
+//@   enum w in WIDTHS0
+//@   panics iff w < sizeof(val) && (val >> (8*w)) != 0
+//@   ensures len(result.bs) == w
+//@   ensures forall i int :: 0 <= i && i < w ==> result.bs[i] == byte(val >> (8*i))
+
+//@ func NewConstInt
+//@   enum w in WIDTHS
+//@   panics iff w < sizeof(val) && (val >> (8*w-1)) != 0 && (val >> (8*w-1)) != -1
+//@   ensures len(result.bs) == w
+//@   ensures forall i int :: 0 <= i && i < w ==> result.bs[i] == byte(val >> (8*i))
+
+//@ func ConstFromUint
+//@   ensures len(result.bs) == sizeof(val)
+//@   ensures forall i int :: 0 <= i && i < sizeof(val) ==> result.bs[i] == byte(val >> (8*i))
+
+//@ func ConstFromInt
+//@   ensures len(result.bs) == sizeof(val)
+//@   ensures forall i int :: 0 <= i && i < sizeof(val) ==> result.bs[i] == byte(val >> (8*i))
+
+//@ func (Const).WithWidth
+//@   enum w in WIDTHS0, cw in BYTELENS
+//@   input:c constval(cw)
+//@   ensures len(result.bs) == w
+//@   ensures forall i int :: 0 <= i && i < w ==> result.bs[i] == ite(i < cw, c.bs[i], 0)
+
+//@ func ConstUint
+//@   enum cw in BYTELENS1
+//@   input:c constval(cw)
+//@   ensures[low-bytes] forall i int :: 0 <= i && i < sizeof(result0) ==> byte(result0 >> (8*i)) == ite(i < cw, c.bs[i], 0)
+//@   ensures[fits] result1 == (forall i int :: sizeof(result0) <= i && i < cw ==> c.bs[i] == 0)
+
+//@ func (Const).Equal
+//@   enum n1 in BYTELENS, n2 in BYTELENS
+//@   input:c1 constval(n1)
+//@   input:c2 constval(n2)
+//@   ensures result == (n1 == n2 && forall i int :: 0 <= i && i < n1 ==> c1.bs[i] == c2.bs[i])
+
+//@ func (Const).Width
+//@   enum n in BYTELENS
+//@   input:c constval(n)
+//@   ensures result == n
+
+//@ func (Const).Bytes
+//@   enum n in BYTELENS
+//@   input:c constval(n)
+//@   ensures len(result) == n
+//@   ensures forall i int :: 0 <= i && i < n ==> result[i] == c.bs[i]
